@@ -475,7 +475,23 @@ def weights_rules(chk, ctx):
         args = [ast.unparse(a) for a in c.args]
         kw = {k.arg: ast.unparse(k.value) for k in c.keywords}
         ok = len(args) == 3 and args[0] == "max_n" and args[1] == "snapshots" and args[2] == "0" and kw.get("trajectory") == "trajectory"
-        chk.decide("C14.WEIGHTS", base + "#dry-run", True if ok else None,
+        # the number of positions ranked is min(total units, max_n - 1): `max` (or another bound) ranks positions that do not
+        # exist or drops positions that do
+        tot = [a for a in ast.walk(fn) if isinstance(a, ast.Assign) and len(a.targets) == 1 and isinstance(a.targets[0], ast.Name)
+               and len(c.args) >= 2 and isinstance(c.args[1], ast.Name) and a.targets[0].id == c.args[1].id]
+        if len(tot) == 1 and isinstance(tot[0].value, ast.Call) and getattr(tot[0].value.func, "id", None) in ("min", "max") \
+                and len(tot[0].value.args) == 2:
+            from ..gram import lin_of as _lin
+            a0, a1 = [_lin(x) for x in tot[0].value.args]
+            want = {str(Lin.sym("snapshots_in_ram") + Lin.sym("snapshots_on_disk")), str(Lin.sym("max_n") - ONE)}
+            got = {str(a0), str(a1)} if a0 is not None and a1 is not None else None
+            is_min = tot[0].value.func.id == "min"
+            chk.decide("C14.BOUND", base + "#total", True if (is_min and got == want) else (False if got == want or (got and is_min) else None),
+                       f"positions ranked by the dry run: `{ast.unparse(tot[0].value)}`; required min(snapshots_in_ram + snapshots_on_disk, max_n - 1)",
+                       rel=REL, node=tot[0], nontrivial=False)
+        # a scratch schedule with disk units is not the all-RAM dry run (and would call allocate_snapshots again)
+        wrong_disk = len(c.args) == 3 and isinstance(c.args[2], ast.Constant) and c.args[2].value != 0
+        chk.decide("C14.WEIGHTS", base + "#dry-run", True if ok else (False if wrong_disk else None),
                    f"dry run: {CLS}({', '.join(args)}, {kw})", rel=REL, node=c, nontrivial=False)
 
 
